@@ -30,6 +30,12 @@ checks = {
  "C09": ("exploration", "seeded hostile-peer search (message mutations at every handshake state, garbage records, foreign key types, post-handshake floods) against real endpoints with panic / watchdog / buffer-bound oracles",
    "An otherwise honest scripted peer deviates once per run (truncate / extend / flip / overwrite length-looking bytes / replace by 0-8 bytes any handshake message; raw or record-shaped garbage after k honest messages; certificates with RSA, P-256, Ed25519 keys; floods after completion incl. huge fragment announcements and many message sequence numbers on DTLCP). Oracle: no recovered panic, every task yields within the wall-clock watchdog (confirmed by re-execution in a fresh process), the run ends or blocks for input within the step budget, hook-reported buffers stay within the stated bounds. 12 000 quick / 300 000 thorough hostile runs.",
    "Trusted: memory = what the read-only hooks report; watchdog expiry only counts when it reproduces.", "5/C09"),
+ "C18": ("fault_enumeration", "enumerated hostile ClientHello / cookie behaviours from chosen source addresses against real DTLCP servers with counting key wrappers",
+   "Cookie-less hellos (repeated), a valid cookie with every covered field changed, every single-byte change / truncation / extension of the cookie, replay from another address and to another server connection (same, different and per-connection random secret), positive controls; configured secret or none; ECC and ECDHE. Oracle: exactly one HelloVerifyRequest (not larger than the request) per rejected hello, no flight 4, zero private-key operations before a valid cookie, cookie valid only for the exact (address, parameters, secret).",
+   "Trusted: key use is observed through wrappers on the crypto.Signer/Decrypter/SM2KeyAgreement seam.", "5/C18"),
+ "C19": ("fault_enumeration", "all k<=2 (thorough: + seeded k=3) plans of drop / duplicate / short delay / long delay over the named datagrams of the DTLCP handshake under virtual time, with reduction of failing plans to minimal causes",
+   "Real client and server on a simulated datagram network under the vs kernel's virtual clock; faults address datagrams by what they carry (CH0, HVR, CH1, F4, F5a, F5b, F6, F4r) and occurrence. Oracle: both complete within initial_timeout*(2^k-1)+slack, agree, echo works, and no timer expires in the fault-free run. Failing plans are reduced (singles, pairs, stale-copy test) to canonical signatures; the genuine retransmission defects that remain are listed in known_findings.json and printed as KNOWN-FINDING.",
+   "Trusted: default timer values; virtual time advances only when every task is blocked.", "5/C19"),
 }
 not_applicable = {
  "C14": "pure function of its input (marshal/unmarshal): no schedule, clock, transport, peer or history enters; input generation is not a simulation target (DESIGN.md section 7). What the simulator sees of the codec is covered under C03/C04/C09.",
